@@ -54,6 +54,9 @@ type Queryable struct {
 	// OnCallback, if set, is invoked at every storage callback with the site name
 	// (used to cancel the query context at the k-th callback).
 	OnCallback func(site string)
+	// HonourHints: Select returns only the samples inside [hints.Start, hints.End], as a
+	// storage is allowed to (C16: the hinted range must be sufficient).
+	HonourHints bool
 }
 
 func (q *Queryable) fault(site string) bool {
@@ -132,7 +135,17 @@ func (qr *querier) Select(sortSeries bool, hints *storage.SelectHints, matchers 
 			}
 		}
 		if ok {
-			ss.ser = append(ss.ser, s)
+			if qr.q.HonourHints && hints != nil {
+				var kept []Sample
+				for _, smp := range s.S {
+					if smp.T >= hints.Start && smp.T <= hints.End {
+						kept = append(kept, smp)
+					}
+				}
+				ss.ser = append(ss.ser, &Series{L: s.L, S: kept, FailAt: -1})
+			} else {
+				ss.ser = append(ss.ser, s)
+			}
 		}
 	}
 	return ss
